@@ -2,7 +2,7 @@
 # Run every registered quick (or $1) check on /repo; print one line per check. Used after every change to /repo or /verif.
 tier="${1:-quick}"; shift
 ids="${@:-C01 C02 C03 C04 C05 C06 C07 C08 C09 C10 C11 C12 C13 C14 C15 C16 C17 C18 C19}"
-cd /verif
+cd "$(dirname "$0")/.."
 fail=0
 for id in $ids; do
   s=$(date +%s)
